@@ -119,9 +119,9 @@ def levinson_durbin(acdata, order=None):
 
   # Inner product for filters based on above statistics
   def inner(a, b): # Be careful, this depends on acdata !!!
-    return sum(acdata[abs(i-j)] * ai * bj
-               for i, ai in enumerate(a.numlist)
-               for j, bj in enumerate(b.numlist)
+    return sum(acdata[abs(i-j)] * ai * bj # Only the terms that exist: a
+               for i, ai in a.numpoly.terms() # "numlist" has float zeros
+               for j, bj in b.numpoly.terms()
               )
 
   try:
@@ -311,9 +311,9 @@ def lpc(blk, order=None):
 
   # Inner product for filters based on above statistics
   def inner(a, b):
-    return sum(phi[i][j] * ai * bj
-               for i, ai in enumerate(a.numlist)
-               for j, bj in enumerate(b.numlist)
+    return sum(phi[i][j] * ai * bj # Only the terms that exist: a
+               for i, ai in a.numpoly.terms() # "numlist" has float zeros
+               for j, bj in b.numpoly.terms()
               )
 
   A = ZFilter(1)
